@@ -462,7 +462,8 @@ PROPS["C09"] = _cw4_prop("C09", 0, C09_CLAUSES, "member list, total and all at-h
     "histories on a per-key changelog invariant); plus an abstract soundness theorem turning the per-step contract S_C09 "
     "(answers for h <= block frozen, h > block = current) into that history statement; an accepted UpdateMembers leaves every "
     "removed address without membership, every other added address with its listed weight and nobody else changed "
-    "(c09_update_members_pointwise). Tie to the Rust: S_C09 evaluated in Coq "
+    "(c09_update_members_pointwise), and clause 8 of the step contract, computed from the submitted lists, is proved never to "
+    "fire on the model (c09_update_contract_never_fires_on_model). Tie to the Rust: S_C09 evaluated in Coq "
     "on every implementation step for every pool address and every height 0..H+2, raw reads vs smart queries, and "
     "model/implementation equality of all those answers (measured).")
 PROPS["C10"] = _cw4_prop("C10", 1, C10_CLAUSES, "stakes, claims, holdings and payout messages",
@@ -471,14 +472,19 @@ PROPS["C10"] = _cw4_prop("C10", 1, C10_CLAUSES, "stakes, claims, holdings and pa
     "and claims exactly as its operation prescribes (only the configured token, only the caller's own stake, unbond creates one "
     "claim maturing no earlier than the period, claim pays exactly the matured claims once); in every reachable state the "
     "reported weight is calc_weight(stake): member iff stake >= max(min_bond,1), weight = full quotient stake/tokens_per_weight "
-    "fitting u64. Tie to the Rust: S_C10 on every implementation step (native and cw20 configurations, amounts up to 2^100, "
+    "fitting u64; over every history and for every user, paid out + still claimable = unbonded (c10_claims_ledger: no claim is "
+    "paid twice, to somebody else, or dropped); clauses 4..12 of S_C10 are proved never to fire on the model's own accepted or "
+    "refused transaction (c10_contract_ops_never_fire_on_model_partial; clauses 1..3 are the state predicates of the history "
+    "theorems). Tie to the Rust: S_C10 on every implementation step (native and cw20 configurations, amounts up to 2^100, "
     "tokens_per_weight 0..2^128-1, both duration kinds) + equality of stakes/claims/holdings/payouts (measured).")
 PROPS["C14"] = _cw4_prop("C14", 2, C14_CLAUSES, "admin, hooks, member list and hook messages",
     "Axiom-free Coq theorems: admin, hook list and (cw4-group) members change only in a call by the current admin; once the "
     "admin is cleared they never change over any history (induction); every accepted membership call sends exactly one message "
     "per registered hook in order, all with the same diff list, and that list EXPLAINS the change (replayed over the old "
     "weights each `old` is the running weight, the result is the new table, unmentioned addresses are unchanged); cw4-stake "
-    "notifies exactly when the weight changed; no other call notifies. Tie to the Rust: S_C14 on every implementation step with "
+    "notifies exactly when the weight changed; no other call notifies; only registered addresses are ever told, each at most "
+    "once per call (the registry of a reachable state never lists an address twice), and after RemoveHook{x} no call of any "
+    "history that does not register x again tells x anything (c14_removed_hook_silent). Tie to the Rust: S_C14 on every implementation step with "
     "real hook-receiver contracts (and non-contract hooks that make the call roll back) + equality of messages (measured).")
 
 
